@@ -140,6 +140,10 @@ def run_auth(methods, cond, prov_kind, ch, ur=None):
                 if answered >= len(lines):
                     # nothing to answer: maybe a deferred password is due
                     if prov is not None and prov.d is not None and not prov.d.called:
+                        # the password arrives: at once, or only after the connection has meanwhile been lost
+                        if ctl.wire.lost_seq is None and ch.choose(2, 'password-arrival') == 1:
+                            dropped = True
+                            ctl.lose(clean=False)
                         log.append('password Deferred fires')
                         prov.d.callback(PASSWORD)
                         continue
